@@ -125,15 +125,28 @@ pub fn untok(t: &str) -> Value {
 
 // ---------------------------------------------------------------- generators
 
-const FLOATS: [u64; 18] = [
+const FLOATS: [u64; 36] = [
     0x0000000000000000, 0x8000000000000000, 0x3FF0000000000000, 0xBFF0000000000000, 0x3FF8000000000000,
     0x7FF0000000000000, 0xFFF0000000000000, 0x7FF8000000000000, 0x7FF8000000000001, 0xFFF8000000000000,
     0x7FF0000000000001, 0x0000000000000001, 0x8000000000000001, 0x4340000000000000, 0x4340000000000001,
     0x433FFFFFFFFFFFFF, 0x43E0000000000000, 0xC3E0000000000000,
+    // fractional neighbours of small integers: 0.5, -0.5, 2.5, -2.5, 2.0, 3.0, -3.0
+    0x3FE0000000000000, 0xBFE0000000000000, 0x4004000000000000, 0xC004000000000000, 0x4000000000000000,
+    0x4008000000000000, 0xC008000000000000,
+    // -2^53, -(2^53+2); 2^52 - 0.5, 2^52 + 1 (last binade with a fractional bit / first without)
+    0xC340000000000000, 0xC340000000000001, 0x432FFFFFFFFFFFFF, 0x4330000000000001,
+    // 2^63 - 1024 (largest float below 2^63) and its negation, the floats next to -2^63 and 2^63, 2^62, f64::MAX
+    0x43DFFFFFFFFFFFFF, 0xC3DFFFFFFFFFFFFF, 0xC3E0000000000001, 0x43E0000000000001, 0x43D0000000000000,
+    0x7FEFFFFFFFFFFFFF, 0x000FFFFFFFFFFFFF,
 ];
-const INTS: [i64; 16] = [
+const INTS: [i64; 34] = [
     0, 1, -1, 2, 9007199254740992, 9007199254740993, 9007199254740994, -9007199254740993, i64::MAX, i64::MIN,
     i64::MAX - 1, 4607182418800017408, 9223372036854775296, 9223372036854775295, 1 << 62, 3,
+    // around -2^53, 2^53 - 1, 2^52
+    -9007199254740992, -9007199254740991, -9007199254740994, 9007199254740991, 4503599627370496, 4503599627370497,
+    // around the ends of the i64 range: 2^63 - 1024 (a float), one above it, MIN + 1, -(2^63 - 1024), its neighbours
+    i64::MAX - 1023, i64::MAX - 1022, i64::MIN + 1, i64::MIN + 1024, i64::MIN + 1023, i64::MIN + 1025,
+    -2, -3, -(1 << 62), 4611686018427387905, 6, 7,
 ];
 
 fn gen_float(r: &mut Rng) -> u64 {
@@ -141,6 +154,36 @@ fn gen_float(r: &mut Rng) -> u64 {
 }
 fn gen_int(r: &mut Rng) -> i64 {
     if r.chance(3, 4) { *r.pick(&INTS) } else { (r.next() as i64) >> r.below(64) }
+}
+
+/// bits of a float next to an interesting integer: the integer converted (rounded) to f64, moved by
+/// up to two representable steps, or with a fractional part attached when the magnitude leaves room
+fn gen_float_near(r: &mut Rng, i: i64) -> u64 {
+    let f = i as f64;
+    match r.below(4) {
+        0 => f.to_bits(),
+        1 => f.to_bits().wrapping_add(1 + r.below(2)),
+        2 => {
+            let b = f.to_bits();
+            if b & 0x7FFF_FFFF_FFFF_FFFF == 0 { b ^ 0x8000_0000_0000_0000 } else { b - 1 - r.below(2) }
+        }
+        _ => (f + *r.pick(&[0.5f64, -0.5, 0.25, -0.75, 1.0, -1.0])).to_bits(),
+    }
+}
+
+/// an Int64 / Float64 value close to one pivot, so that pairs and triples land on equal, adjacent
+/// and just-not-equal numbers (the region where a rounding comparison goes wrong)
+fn gen_numeric_near(r: &mut Rng, pivot: i64) -> Value {
+    let i = pivot.saturating_add(r.below(7) as i64 - 3);
+    if r.chance(1, 2) { Value::Int64(i) } else { Value::Float64(f64::from_bits(gen_float_near(r, i))) }
+}
+
+fn gen_pivot(r: &mut Rng) -> i64 {
+    if r.chance(4, 5) {
+        *r.pick(&[0i64, 1, -1, 2, -2, 1 << 52, -(1 << 52), 1 << 53, -(1 << 53), 1 << 62, -(1 << 62), i64::MAX, i64::MIN, (1 << 53) + 2, i64::MAX - 1023, i64::MIN + 1024])
+    } else {
+        gen_int(r)
+    }
 }
 
 fn gen_scalar(r: &mut Rng) -> Value {
@@ -198,6 +241,35 @@ pub fn generate(seed: u64, cases: usize, out: &mut Vec<String>) {
     for i in INTS {
         out.push(format!("val i2f {}", i));
     }
+    for a in FLOATS {
+        out.push(format!("val f2i {:016x}", a));
+        out.push(format!("val trunc {:016x}", a));
+    }
+    // every special integer against every special float: ==, cmp, the pair laws (incl. hash), and
+    // transitivity through each special float / integer as the middle element
+    out.push(format!("# case int-float seed {}", seed));
+    for i in INTS {
+        for f in FLOATS {
+            let (ti, tf) = (format!("I{}", i), format!("F{:016x}", f));
+            out.push(format!("val ov.eq {} {}", ti, tf));
+            out.push(format!("val ov.cmp {} {}", ti, tf));
+            out.push(format!("val ov.cmp {} {}", tf, ti));
+            out.push(format!("val ov.law {} {}", ti, tf));
+            out.push(format!("val ov.law {} {}", tf, ti));
+        }
+        out.push(format!("val ov.hash I{}", i));
+    }
+    for f in FLOATS {
+        out.push(format!("val ov.hash F{:016x}", f));
+    }
+    for i in INTS {
+        for f in FLOATS {
+            for j in [i.saturating_sub(1), i, i.saturating_add(1), (f64::from_bits(f)) as i64] {
+                out.push(format!("val ov.trans I{} F{:016x} I{}", i, f, j));
+            }
+            out.push(format!("val ov.trans F{:016x} I{} F{:016x}", f, i, (i as f64).to_bits()));
+        }
+    }
     for c in 0..cases {
         out.push(format!("# case {} seed {}", c, seed));
         let (fa, fb, fc) = (gen_float(&mut r), gen_float(&mut r), gen_float(&mut r));
@@ -211,6 +283,17 @@ pub fn generate(seed: u64, cases: usize, out: &mut Vec<String>) {
         out.push(format!("val ov.hash {}", tok(&a)));
         out.push(format!("val ov.law {} {}", tok(&a), tok(&b)));
         out.push(format!("val ov.trans {} {} {}", tok(&a), tok(&b), tok(&c3)));
+        // Int64 / Float64 values around one pivot: pairs and triples for the cross-type laws
+        let pv = gen_pivot(&mut r);
+        let (na, nb, nc) = (gen_numeric_near(&mut r, pv), gen_numeric_near(&mut r, pv), gen_numeric_near(&mut r, pv));
+        out.push(format!("val ov.eq {} {}", tok(&na), tok(&nb)));
+        out.push(format!("val ov.cmp {} {}", tok(&na), tok(&nb)));
+        out.push(format!("val ov.hash {}", tok(&na)));
+        out.push(format!("val ov.law {} {}", tok(&na), tok(&nb)));
+        out.push(format!("val ov.trans {} {} {}", tok(&na), tok(&nb), tok(&nc)));
+        let nf = if r.chance(1, 2) { gen_float_near(&mut r, pv) } else { gen_float(&mut r) };
+        out.push(format!("val f2i {:016x}", nf));
+        out.push(format!("val trunc {:016x}", nf));
         let x = gen_value(&mut r, 0);
         let y = if r.chance(1, 3) { x.clone() } else { gen_value(&mut r, 0) };
         out.push(format!("val hv.eq {} {}", tok(&x), tok(&y)));
@@ -264,6 +347,11 @@ pub fn run(args: &[&str]) -> String {
         use std::cmp::Ordering::Greater;
         match a.as_slice() {
             ["i2f", i] => format!("{}", (i.parse::<i64>().unwrap() as f64).to_bits()),
+            ["f2i", x] => format!("{}", f64::from_bits(u64::from_str_radix(x, 16).unwrap()) as i64),
+            ["trunc", x] => {
+                let t = f64::from_bits(u64::from_str_radix(x, 16).unwrap()).trunc();
+                if t.is_nan() { "nan".into() } else { format!("{}", t.to_bits()) }
+            }
             ["of.eq", x, y] => format!("{}", of(x) == of(y)),
             ["of.cmp", x, y] => ord_str(of(x).cmp(&of(y))).into(),
             ["of.law", tx, ty] => {
@@ -293,6 +381,8 @@ pub fn run(args: &[&str]) -> String {
                     "eq-not-transitive".into()
                 } else if x.cmp(&y) != Greater && y.cmp(&z) != Greater && x.cmp(&z) == Greater {
                     "cmp-not-transitive".into()
+                } else if x == y && (x.cmp(&z) != y.cmp(&z) || z.cmp(&x) != z.cmp(&y)) {
+                    "cmp-ignores-eq".into()
                 } else {
                     "ok".into()
                 }
